@@ -313,20 +313,32 @@ def build (H : Str → Str) (pr : Char → Bool) (fs : FS) (cfs : CtxFS) (classe
     | none => t)
   pure { tasks := final, reg := st.reg, next := st.next }
 
+/-- `config.name` of a member's main config (the name the member chain is filed under) -/
+def mainName (fs : FS) (main : Str) : Except Err Str :=
+  match loadCfg fs none main none with
+  | .error e => .error e
+  | .ok cfg => .ok cfg.name
+
+/-- `MultiChain._prepare`: `seen` = names of the member chains built so far; a second config with the same name is refused
+(`assert config.name not in self.chains`) before its chain is built -/
 def buildMultiAux (H : Str → Str) (pr : Char → Bool) (fs : FS) (cfs : CtxFS) (classes : Classes) (fuel : Nat) :
-    List (Str × Option CtxSrc) → Registry → Nat → Except Err (List Chain)
-  | [], _, _ => .ok []
-  | m :: rest, reg, next =>
-    match build H pr fs cfs classes m.1 none m.2 reg next fuel with
+    List (Str × Option CtxSrc) → List Str → Registry → Nat → Except Err (List Chain)
+  | [], _, _, _ => .ok []
+  | m :: rest, seen, reg, next =>
+    match mainName fs m.1 with
     | .error e => .error e
-    | .ok c => match buildMultiAux H pr fs cfs classes fuel rest c.reg c.next with
-      | .error e => .error e
-      | .ok cs => .ok (c :: cs)
+    | .ok nm =>
+      if seen.contains nm then .error .dupChain
+      else match build H pr fs cfs classes m.1 none m.2 reg next fuel with
+        | .error e => .error e
+        | .ok c => match buildMultiAux H pr fs cfs classes fuel rest (nm :: seen) c.reg c.next with
+          | .error e => .error e
+          | .ok cs => .ok (c :: cs)
 
 /-- `MultiChain(configs)`: one registry shared by all chains, in order -/
 def buildMulti (H : Str → Str) (pr : Char → Bool) (fs : FS) (cfs : CtxFS) (classes : Classes)
     (mains : List (Str × Option CtxSrc)) (fuel : Nat) : Except Err (List Chain) :=
-  match buildMultiAux H pr fs cfs classes fuel mains [] 0 with
+  match buildMultiAux H pr fs cfs classes fuel mains [] [] 0 with
   | .error e => .error e
   | .ok cs =>
     -- task objects are shared and mutable: an object keeps the input tasks set by the LAST chain that listed it
